@@ -303,3 +303,110 @@ Example C09_history_example :
   /\ hok [met; {| hc_fresh := ex_met [[0x1.8p-1%float]]; hc_here := ex_met [[0%float]] |}] = false
   /\ ok_t (History [nuts; nuts; met]) = true /\ ok_t (Single ex_alone) = true.
 Proof. vm_compute. repeat split; reflexivity. Qed.
+
+(** ---- non-vacuity of the hypotheses (audit) ---- *)
+
+(** [C09_metropolis_accept_le], [C09_metropolis_live]: the box target of [C09_metropolis_example] *)
+Definition C09_nv_tg : vec -> float :=
+  lookup_t [([0x1p-1], -0x1p-3); ([0x1.8p+0], neg_infinity); ([0x1p-2], -0x1p-5); ([0x1.8p-1], -0x1.2p-2)]%float.
+Definition C09_nv_ex : float -> float :=
+  lookup_e [(neg_infinity, 0); (0x1.8p-4, 0x1.192937074e0cdp+0); (-0x1p-2, 0x1.8ebef9eac820bp-1)]%float.
+Definition C09_nv_stream : list draw :=
+  [DN [1%float]; DU 0x1.3333333333333p-2%float; DN [(-0x1p-2)%float]; DU 0x1.ccccccccccccdp-1%float;
+   DN [0x1p-1%float]; DU 0x1.999999999999ap-3%float].
+
+Example C09_metropolis_accept_le_nonvacuous :
+  let x := [0x1p-2%float] in let y := [0x1.8p-1%float] in let u := 0x1.999999999999ap-3%float in
+  is_nan (C09_nv_ex (C09_nv_tg y - C09_nv_tg x)%float) = false /\ is_nan u = false
+  /\ C09_nv_ex (C09_nv_tg y - C09_nv_tg x)%float = 0x1.8ebef9eac820bp-1%float
+  /\ accept C09_nv_tg C09_nv_ex x y u = true
+  /\ accept C09_nv_tg C09_nv_ex x y 0x1.ccccccccccccdp-1%float = false.
+Proof. vm_compute. repeat split; reflexivity. Qed.
+
+Example C09_metropolis_live_nonvacuous :
+  is_infinity (C09_nv_tg [0x1p-1%float]) = false
+  /\ exists ds, pairs (2 + 1) C09_nv_stream = Some ds /\ length ds = 3
+     /\ metropolis C09_nv_tg C09_nv_ex [1%float] 2 1 [0x1p-1%float] C09_nv_stream
+        = Chain (skipn 1 (scan C09_nv_tg C09_nv_ex [1%float] [0x1p-1%float] ds)).
+Proof.
+  split; [vm_compute; reflexivity|]. eexists. split; [vm_compute; reflexivity|]. split; [reflexivity|].
+  apply C09_metropolis_live; vm_compute; reflexivity.
+Qed.
+
+(** [C09_metropolis_entry_storage_independent]: different storages of the same numbers *)
+Example C09_metropolis_entry_storage_independent_nonvacuous :
+  map to_f64 [NI 0%Z] = map to_f64 [NF 0%float] /\ [NI 0%Z] <> [NF 0%float]
+  /\ map to_f64 [NI 1%Z] = map to_f64 [NF 1%float] /\ [NI 1%Z] <> [NF 1%float].
+Proof. repeat split; try discriminate; vm_compute; reflexivity. Qed.
+
+(** [C09_metropolis_ok_sound], [C09_nuts_ok_sound]: recorded runs that pass the decidable predicates *)
+Example C09_ok_sound_nonvacuous :
+  match ex_met [[0x1.8p-1%float]] with CMet m => Mcmc.ok m | CNuts _ => false end = true
+  /\ match ex_alone with CNuts n => nok n | CMet _ => false end = true.
+Proof. vm_compute. split; reflexivity. Qed.
+
+(** [C09_nuts_tree_invariant], [C09_nuts_support]: the four hypotheses on the toy instance, a good start, a tree
+    actually built (depth 1, two leaves inside the slice) and a run that returns a chain *)
+Example C09_nuts_support_nonvacuous :
+  (forall u n, Toy.acc u 0 n = false)
+  /\ (forall u n, 0 < n -> Toy.acc u n n = true)
+  /\ (forall s sv p m, True -> l_in (Toy.base s sv p m) = true -> Toy.good (l_p (Toy.base s sv p m)))
+  /\ (forall p m e : nat, Toy.good p -> True)
+  /\ Toy.good 4
+  /\ (exists t st', build nat nat bool nat nat nat Toy.base Toy.uturn_ok (fun s => s) Toy.acc 1 false 2 4 7
+                          [NU 10; NU 30; NU 20; NU 40] = Some (t, st') /\ t_n t = 2)
+  /\ Toy.run 3 1 0 4
+       [NM 7; NE 2; NU 10; NU 30; NU 20; NU 40; NM 7; NE 3; NU 80; NU 10; NU 70; NU 60; NU 10;
+        NM 7; NE 9; NU 10; NU 10; NU 10; NU 10] = NChain [6; 4; 4] [].
+Proof.
+  split; [exact Toy.acc_zero|]. split; [exact Toy.acc_full|]. split; [exact Toy.leaf_good|].
+  split; [intros; exact I|]. split; [unfold Toy.good; repeat constructor|].
+  split; [do 2 eexists; split; [vm_compute; reflexivity|reflexivity]|]. exact C09_nuts_example_run.
+Qed.
+
+(** [C09_nuts_leaf_in_good] *)
+Example C09_nuts_leaf_in_good_nonvacuous :
+  bad (-1)%float = false /\ leaf_in (-1)%float (-0x1p-2)%float 0x1p-1%float = true
+  /\ bad (-0x1p-2)%float = false.
+Proof. vm_compute. repeat split; reflexivity. Qed.
+
+(** [C09_nuts_support_float]: positions on a line, binary64 log-target -p on p <= 6 and -inf beyond, kinetic term 1/2,
+    a slice variable that depends on the draw; the three hypotheses, a start with a good target, and a run to a chain *)
+Definition C09_nv_targetf (p : nat) : float :=
+  if p <=? 6 then (- of_uint63 (Uint63.of_Z (Z.of_nat p)))%float else neg_infinity.
+Definition C09_nv_slicef (p m e : nat) : float := if e <=? 5 then (-0x1p+3)%float else (-0x1p+4)%float.
+Definition C09_nv_leap (s : bool) (p m : nat) : nat * nat := (if s then p - 1 else p + 1, m).
+Definition C09_nv_basef : bool -> float -> nat -> nat -> leaf nat nat :=
+  base_f nat nat bool C09_nv_leap C09_nv_targetf (fun _ => 0x1p-1%float)
+         (fun _ p _ => p <=? 8) (fun _ p _ => negb (p <=? 8)) (fun _ _ _ => 1%float).
+
+Example C09_nuts_support_float_nonvacuous :
+  (forall u n, Toy.acc u 0 n = false)
+  /\ (forall u n, 0 < n -> Toy.acc u n n = true)
+  /\ (forall p m e, bad (C09_nv_targetf p) = false -> bad (C09_nv_slicef p m e) = false)
+  /\ bad (C09_nv_targetf 4) = false /\ bad (C09_nv_targetf 7) = true
+  /\ nuts nat nat bool float nat nat C09_nv_basef Toy.uturn_ok (fun s => s) negb Toy.acc Toy.dir C09_nv_slicef
+          (fun _ => false) (fun _ => false) 3 1 0 4
+          [NM 7; NE 2; NU 10; NU 30; NU 20; NU 40; NM 7; NE 3; NU 80; NU 10; NU 70; NU 60; NU 10;
+           NM 7; NE 9; NU 10; NU 10; NU 10; NU 10] = NChain [6; 4; 6] [].
+Proof.
+  split; [exact Toy.acc_zero|]. split; [exact Toy.acc_full|].
+  split; [intros p m e _; unfold C09_nv_slicef; destruct (e <=? 5); vm_compute; reflexivity|].
+  split; [vm_compute; reflexivity|]. split; vm_compute; reflexivity.
+Qed.
+
+(** [C09_history_equal_calls_equal_results]: two DIFFERENT records (different recorded outputs) of calls with the same
+    inputs, at positions 0 and 2 of a history *)
+Example C09_history_equal_calls_nonvacuous :
+  let c1 := ex_alone in let c2 := ex_nuts 1 (NM 9%N :: ex_stream) [5%N] in
+  let h := [c1; ex_met [[0x1.8p-1%float]]; c2] in
+  nth_error h 0 = Some c1 /\ nth_error h 2 = Some c2 /\ inputs c1 = inputs c2 /\ c1 <> c2
+  /\ nth_error (history_results [] h) 0 = nth_error (history_results [] h) 2.
+Proof.
+  cbv zeta. split; [reflexivity|]. split; [reflexivity|].
+  assert (Hi : inputs ex_alone = inputs (ex_nuts 1 (NM 9%N :: ex_stream) [5%N])) by reflexivity.
+  split; [exact Hi|]. split; [intro H; discriminate H|].
+  exact (proj1 (C09_history_equal_calls_equal_results
+                  [ex_alone; ex_met [[0x1.8p-1%float]]; ex_nuts 1 (NM 9%N :: ex_stream) [5%N]] [] 0 2
+                  ex_alone (ex_nuts 1 (NM 9%N :: ex_stream) [5%N]) eq_refl eq_refl Hi)).
+Qed.
